@@ -41,6 +41,7 @@ def footprint(tu, t):
             params = [c.get('name', '') for c in o.get('inner', []) if c.get('kind') == 'NonTypeTemplateParmDecl']
             classes.append((o.get('name'), o, params))
     uses = []; ucls = []; helper = []
+    lu, shifts = _solver_footprint(classes)
     for name, rec, params in classes:
         hp = _header_of(name)
         if hp is None: continue
@@ -90,7 +91,77 @@ def footprint(tu, t):
     s += '-- SymShiftInvertHelper, in source order over its three definitions: (expression the view/call is applied to, member, triangle argument, enclosing if-branch)\n'
     s += 'def helperUses : List (String × String × String × String) := [\n' + ',\n'.join(
         f'  ({_lean_str(a)}, {_lean_str(b)}, {_lean_str(c)}, {_lean_str(d)})' for a, b, c, d in helper) + ']\n'
+    s += '\n-- every Eigen::SparseLU instantiated by a MatOp wrapper: (class, matrix type argument with aliases expanded, argument is explicitly column-major,\n'
+    s += '-- the class (or its helper in the same header) declares the factorized matrix symmetric via isSymmetric(true))\n'
+    s += 'def sparseLUUses : List (String × String × Bool × Bool) := [\n' + ',\n'.join(
+        f'  ({_lean_str(a)}, {_lean_str(b)}, {"true" if c else "false"}, {"true" if d else "false"})' for a, b, c, d in lu) + ']\n\n'
+    s += '-- every method that factorizes with a shift: (class, method, solver kind, the factorization status is tested (info()) and failure is thrown / returned to a caller that throws)\n'
+    s += 'def shiftChecks : List (String × String × String × Bool) := [\n' + ',\n'.join(
+        f'  ({_lean_str(a)}, {_lean_str(b)}, {_lean_str(c)}, {"true" if d else "false"})' for a, b, c, d in shifts) + ']\n'
     return s
+
+def _solver_footprint(classes):
+    """SparseLU instantiations (F19) and info()-checks of every factorizing set_shift / factorize (F20)"""
+    lu = []; shifts = []
+    symhdr = {}       # header -> some class in it calls isSymmetric(true)
+    per = []
+    for name, rec, params in classes:
+        hp = _header_of(name)
+        if hp is None: continue
+        src = open(hp).read()
+        aliases = {}; fields = {}; methods = []
+        def visit(n, stack):
+            k = n.get('kind')
+            if k == 'TypeAliasDecl': aliases[n.get('name')] = n.get('type', {}).get('qualType', '')
+            elif k == 'FieldDecl': fields[n.get('name')] = n.get('type', {}).get('qualType', '')
+            elif k in ('CXXMethodDecl',) and n.get('name') in ('set_shift', 'factorize') and any(c.get('kind') == 'CompoundStmt' for c in n.get('inner', [])):
+                methods.append(n)
+            elif k == 'CXXDependentScopeMemberExpr' and n.get('member') == 'isSymmetric':
+                call = stack[-1] if stack else {}
+                if call.get('kind') == 'CallExpr' and any(a.get('kind') == 'CXXBoolLiteralExpr' and a.get('value') is True for a in call.get('inner', [])[1:]):
+                    symhdr[hp] = True
+        _walk(rec, visit)
+        per.append((name, hp, src, aliases, fields, methods))
+    def expand(t, aliases, depth=0):
+        if depth > 6: return t
+        def rep(m):
+            w = m.group(0)
+            return expand(aliases[w], aliases, depth + 1) if w in aliases and aliases[w] != w else w
+        return re.sub(r'(?<![:\w])[A-Za-z_]\w*\b', rep, re.sub(r'Spectra::\w+::', '', t))
+    for name, hp, src, aliases, fields, methods in per:
+        seen = set()
+        for t in list(aliases.values()) + list(fields.values()):
+            for m in re.finditer(r'SparseLU<', t):
+                # balanced argument
+                i = m.end(); d = 1; j = i
+                while j < len(t) and d: d += (t[j] == '<') - (t[j] == '>'); j += 1
+                arg = expand(t[i:j - 1], aliases)
+                if arg in seen: continue
+                seen.add(arg)
+                first = arg.strip()
+                colmajor = bool(re.match(r'(Eigen::)?SparseMatrix<[^,]+,\s*(Eigen::)?ColMajor\b', first))
+                lu.append((name, re.sub(r'\s+', ' ', arg), colmajor, bool(symhdr.get(hp))))
+        for mth in methods:
+            body = [c for c in mth['inner'] if c.get('kind') == 'CompoundStmt'][0]
+            txt = _text(src, body)
+            if 'compute(' not in txt and 'factorize(' not in txt: continue
+            solver = fields.get('m_solver', 'Fac' if mth.get('name') == 'factorize' else '?')
+            kind = next((k for k in ('PartialPivLU', 'SparseLU', 'BKLDLT', 'FacType', 'ComplexSolver', 'Fac') if k in solver), solver)
+            if kind == 'ComplexSolver': kind = 'PartialPivLU' if 'PartialPivLU' in aliases.get('ComplexSolver', '') else ('SparseLU' if 'SparseLU' in aliases.get('ComplexSolver', '') else kind)
+            checked = False
+            for st in body.get('inner', []):
+                if st.get('kind') == 'IfStmt':
+                    cond = _text(src, st['inner'][0]); then = st['inner'][1]
+                    if _has_kind(then, 'CXXThrowExpr') and ('info()' in cond or ('success' in cond and 'factorize(' in txt)): checked = True
+                if st.get('kind') == 'ReturnStmt' and mth.get('name') == 'factorize' and re.search(r'\.info\(\)\s*==', _text(src, st)): checked = True
+            shifts.append((name, mth.get('name'), kind, checked))
+    if not lu: raise XlateError('no SparseLU instantiation found in MatOp/')
+    if not shifts: raise XlateError('no factorizing set_shift found in MatOp/')
+    return lu, shifts
+
+def _has_kind(n, kind):
+    if n.get('kind') == kind: return True
+    return any(isinstance(c, dict) and _has_kind(c, kind) for c in n.get('inner', []))
 
 def _contains(root, node):
     if root is node: return True
